@@ -52,6 +52,12 @@ def catalogue(rng):
         # a deadline driven by the synchronous scheduler runs on the thread that delivered the item - here a subscribe_on worker, which
         # must come back from the item's next() once TimedOut has been delivered, and exit
         ("subscribe_on(timeout_sync(just))", ["op", "subscribe_on", [], ["op", "timeout_sync", [d], ["op", "concat", [], ["just", 1], ["never"]]]], d, None),
+        # a source that would go on for ever on a scheduler thread, cut downstream: the worker must come back and exit
+        ("take(subscribe_on(from_iter_endless))", ["op", "take", [3], ["op", "subscribe_on", [], ["from_iter_endless"]]], 0, None),
+        ("first(observe_on(subscribe_on(from_iter_endless)))", ["op", "first", [], ["op", "observe_on", [], ["op", "subscribe_on", [], ["op", "take", [50], ["from_iter_endless"]]]]], 0, None),
+        # the fallback of on_error_resume_next owns a ticker; the subscription is ended downstream while it runs
+        ("take(on_error_resume_next(error,interval))", ["op", "take", [k], ["op", "on_error_resume_next", [], ["error", 5], iv]], d, None),
+        ("on_error_resume_next(error,interval)+unsub", ["op", "on_error_resume_next", [], ["error", 5], iv], d, "unsub"),
         ("amb(just,observe_on(interval))", ["op", "amb", [], ["just", 7], ["op", "observe_on", [], iv]], d, None),
         ("take_until(observe_on(subscribe_on(interval)),just)", ["op", "take_until", [], ["op", "observe_on", [], ["op", "subscribe_on", [], iv]], ["just", 1]], d, None),
         ("take(merge(just,observe_on(interval)))", ["op", "take", [1], ["op", "merge", [], ["just", 7], ["op", "observe_on", [], iv]]], d, None),
